@@ -61,7 +61,7 @@ column_setting_with_property = column_setting | prop.set_results_name('property'
 
 column_settings = '[' - column_setting + ("," + column_setting)[...] + ']' + c
 
-column_settings_with_properties = '[' - (_ + column_setting_with_property + _) + ("," + column_setting_with_property)[...] + ']' + c
+column_settings_with_properties = '[' - (_ + column_setting_with_property + _) + ("," + _ + column_setting_with_property + _)[...] + ']' + c
 
 
 def parse_column_settings(s, loc, tok):
